@@ -259,7 +259,7 @@ func runOnce(rc *kernel.RunCtx, k *kernel.Kernel) {
 		// for another key may be blocked now.
 		rc.Stats.Probe("once-constructor-held")
 		for _, t := range k.Tasks() {
-			if t.Idx < nTasks && inGet[t.Idx] >= 0 && inGet[t.Idx] != holdKey && panicked[inGet[t.Idx]] == 0 && t.IsBlocked() {
+			if t.Idx < nTasks && inGet[t.Idx] >= 0 && inGet[t.Idx] != holdKey && panicked[inGet[t.Idx]] == 0 && (t.IsBlocked() || t.IsLockWaiting()) {
 				k.Fail("not-independent", "OnceConstructor.Get", "task "+t.Name+" is blocked in Get("+kernel.Itoa(inGet[t.Idx])+
 					") while only the construction of key "+kernel.Itoa(holdKey)+" is in progress")
 
@@ -449,11 +449,6 @@ func runSema(rc *kernel.RunCtx, k *kernel.Kernel, misuse bool) {
 
 				return
 			case misuse:
-			case inAcq[i] && t.IsBlocked() && cancelled[i]:
-				k.Fail("acquire-ignores-done-context", "ChanSemaphore.Acquire",
-					"Acquire of "+t.Name+" stays blocked although its context is done")
-
-				return
 			case inAcq[i] && t.IsBlocked() && upper < capacity:
 				k.Fail("acquire-blocked-with-free-slot", "ChanSemaphore.Acquire",
 					"Acquire of "+t.Name+" blocks although at most "+kernel.Itoa(upper)+" of "+kernel.Itoa(capacity)+" slots can be taken")
@@ -609,8 +604,15 @@ func runSema(rc *kernel.RunCtx, k *kernel.Kernel, misuse bool) {
 					i := ids[tp.Choose(len(ids))]
 					cancelled[i] = true
 					// Releases that are in flight at this moment may still
-					// hand a slot over after the cancellation.
-					relSinceCancel[i] = 0
+					// hand a slot over after the cancellation, and so may a
+					// slot that is not known to be taken: "blocked" means
+					// that no slot is free only for an implementation that
+					// hands a freed slot over at once; one that leaves it
+					// pending for a waiter it has woken (a grant counter and
+					// a condition variable, say) may give it to this one
+					// instead.  Only tasks whose Acquire has returned
+					// certainly hold a slot.
+					relSinceCancel[i] = max(0, capacity-nHolding())
 					for _, r := range inRel {
 						if r {
 							relSinceCancel[i]++
@@ -628,6 +630,20 @@ func runSema(rc *kernel.RunCtx, k *kernel.Kernel, misuse bool) {
 
 	k.Run()
 
+	if !k.Failed() && k.HarnessErr == "" && k.Inconclusive == "" && !misuse {
+		// Nothing can run any more.  An Acquire whose context is done must have
+		// come back by now.  (Not demanded earlier: an implementation may need
+		// steps of its own to notice - a context.AfterFunc goroutine that has
+		// to take a mutex and wake the waiter, say.)
+		for i, t := range tasks {
+			if inAcq[i] && (t.IsBlocked() || t.IsLockWaiting()) && cancelled[i] {
+				k.Fail("acquire-ignores-done-context", "ChanSemaphore.Acquire",
+					"Acquire of "+t.Name+" stays blocked although its context is done and nothing else can run")
+
+				break
+			}
+		}
+	}
 	if !k.Failed() && k.HarnessErr == "" && k.Inconclusive == "" {
 		for _, t := range k.Tasks() {
 			if !t.Daemon && !t.Exited() {
